@@ -135,6 +135,17 @@ CLAIMED = {
              "histories executed with real sleeps on a half-second grid against the model and an independent python history spec.",
         technique="Coq proof of per-operation state transitions and filter semantics + timed model/implementation correspondence",
         ref="DESIGN.md section 6, C20"),
+    "C04": dict(
+        text="PARTIAL. Kernel-checked theorems: for every well-formed packet the plain serialisation is accepted by an independent "
+             "envelope reader which finds exactly the counted questions and records in order (the OPT pseudo-record once), each "
+             "RDLENGTH delimiting its RDATA, ending at the last byte; len() equals the bytes written for every RDATA (separate "
+             "code, proved equal); the imperative compressed record writer (placeholder / seek back / patch / seek forward) refines "
+             "the functional writer on a growable seekable writer at any position over any pre-existing content (the pinned "
+             "seek(End(0)) is refuted by a witness). Not proved: framing of the compressed output (rests on C03), fixed-capacity "
+             "writers. Those, and every writer kind / capacity / offset / pre-filled content, are covered by the BUILDW slice with "
+             "a python envelope walker and byte equality with the vector-returning entry points.",
+        technique="Coq proof (walker over written output; list-level refinement of the seek/patch writer) + model/implementation correspondence over writer configurations",
+        ref="DESIGN.md section 6, C04"),
 }
 
 PENDING_REASON = "not claimed yet: model, theorems and correspondence slice for this property are still being built (see DESIGN.md section 10)"
